@@ -40,6 +40,10 @@ def make_cfg(rs, tier):
         # collide under simple checksums (byte sum: a permutation; Adler/Fletcher-style weighted sums: +1,-2,+1 on equally
         # spaced digits; XOR: two equal changes).  "Nothing changed" must be decided on the content, whatever the digest.
         cfg.update(weak=rs.choice(["perm", "adler", "xor"]), nres=1, capmode="huge", forced_flush_possible=False)
+    elif r < 0.26:
+        # EXACT-FIT configuration: the capacity is set to exactly the current buffer size (as the library reports it), then a
+        # modification keeps the encoded size the same: the data still fits, so nothing may be written before the exit
+        cfg.update(exactfit=True, nres=1, capmode="huge", forced_flush_possible=False)
     elif r < 0.39:
         # BIG-CAPACITY configuration: the class capacity is tiny, every outermost backend context asks for a huge one,
         # plain contexts nest inside it; nothing may be written before the outermost exit
@@ -58,6 +62,22 @@ def setup(w, rg):
         yield {"t": "new_res", "family": twin_family, "kind": cfg["kinds"][0], "init": init}
         yield {"t": "new_obj", "rid": 0, "wc": cfg["wc"]}
         yield {"t": "new_obj", "rid": 1, "wc": cfg["wc"]}
+        return
+    if cfg.get("exactfit"):
+        kind = cfg["kinds"][0]
+        init = [44, 55] if kind == "list" else {"a": 44, "b": 55}
+        yield {"t": "new_res", "family": cfg["family"], "kind": kind, "init": init}
+        yield {"t": "new_obj", "rid": 0, "wc": cfg["wc"]}
+        key = 1 if kind == "list" else "b"
+        w._script = [{"t": "enter", "ctx": "backend", "family": cfg["family"], "kind": kind},
+                     {"t": "op", "hid": 0, "name": "setitem", "args": [key, 66]},
+                     {"t": "setcap_cur", "family": cfg["family"], "kind": kind},
+                     {"t": "op", "hid": 0, "name": "setitem", "args": [key, 77]},
+                     {"t": "op", "hid": 0, "name": "getitem", "args": [key]},
+                     {"t": "exit"},
+                     {"t": "setcap_keep", "family": cfg["family"], "kind": kind, "n": 32 * 2 ** 20}]
+        w._script_only = True
+        w.probe("exact_fit_scenario")
         return
     if cfg.get("weak"):
         kind = cfg["kinds"][0]
@@ -90,6 +110,8 @@ def gen_step(w, rg):
     cfg = w.cfg
     if getattr(w, "_script", None):
         return w._script.pop(0)
+    if getattr(w, "_script_only", False):
+        return None
     if cfg.get("twin"):
         return gen_twin_step(w, rg)
     if cfg["capmode"] != "bigcap":
